@@ -9,6 +9,8 @@ from hypothesis import strategies as st
 from checks.c03_dataset_wrappers import ClassRoot, layout, with_layout
 from vlib.core import Case, Facet, Refused, Violation
 
+# thorough-tier budgets of every facet are multiplied by this factor (sized for ~5-8 min on 16 cores)
+THOROUGH_SCALE = 6
 LEVEL = "exploration"
 RULE = ("spec = explicit label layout (n 1..48, C 1..8, absent / single-sample classes, -1 labels where the wrapper handles "
         "them; bulk accessor returning a new list, the root's internal list, an ndarray or a tensor) + wrapper arguments (group "
